@@ -131,6 +131,7 @@ type lgInterp struct {
 	held           []lgHeld
 	facts          [][2]*lgNode
 	alias          [][2]*lgNode // node[0] is known to be node[1] on this path
+	path           []lgAct      // Lock/Unlock steps executed on this path of the root
 	pre            []lgHeld     // every lock acquired so far on this path of the root (released ones included)
 	stack          []lgStackEnt
 	breakHeld      [][]lgHeld
@@ -215,7 +216,7 @@ func (in *lgInterp) runAll() ([]string, error) {
 			if fd == nil {
 				return fmt.Errorf("LockGen: root %s not found", k)
 			}
-			in.root, in.lenient, in.held, in.facts, in.stack, in.alias, in.pre = k, lenient, nil, nil, nil, nil, nil
+			in.root, in.lenient, in.held, in.facts, in.stack, in.alias, in.pre, in.path = k, lenient, nil, nil, nil, nil, nil, nil
 			roots = append(roots, k)
 			recv := &lgVal{kind: "other", text: "self"}
 			if fd.Recv != nil && len(fd.Recv.List[0].Names) == 1 {
@@ -284,6 +285,9 @@ func (in *lgInterp) site(p token.Pos, kind string) {
 		fn = in.stack[len(in.stack)-1].key
 	}
 	s := lgSite{root: in.root, fn: fn, pos: in.pos(p), kind: kind, held: append([]lgHeld(nil), in.held...), facts: append([][2]*lgNode(nil), in.facts...)}
+	if strings.HasPrefix(kind, "(KCall") || strings.HasPrefix(kind, "(KAcq") || strings.HasPrefix(kind, "(KField") {
+		s.path = append([]lgAct(nil), in.path...)
+	}
 	if strings.HasPrefix(kind, "(KCall") {
 		s.pre = append([]lgHeld(nil), in.pre...)
 		for _, h := range in.held {
@@ -298,7 +302,7 @@ func (in *lgInterp) site(p token.Pos, kind string) {
 		key += "|" + f[0].coq() + "#" + f[1].coq()
 	}
 	if strings.HasPrefix(kind, "(KCall") || strings.HasPrefix(kind, "(KField") {
-		key = s.root + "|" + key + "|" + lgHeldCoq(s.pre) + "|" + lgHeldCoq(s.undeferred)
+		key = s.root + "|" + key + "|" + lgHeldCoq(s.pre) + "|" + lgHeldCoq(s.undeferred) + "|" + lgPathCoq(s.path)
 	}
 	if in.seen[key] {
 		return
@@ -839,6 +843,7 @@ func (in *lgInterp) lockOp(p token.Pos, l lgLock, m string) error {
 	case "Lock", "RLock":
 		in.site(p, fmt.Sprintf("(KAcq %s %s)", l.coq(), lgBool(m == "Lock")))
 		in.held = append(in.held, lgHeld{l: l, w: m == "Lock"})
+		in.path = append(in.path[:len(in.path):len(in.path)], lgAct{acq: true, l: l, w: m == "Lock", facts: append([][2]*lgNode(nil), in.facts...)})
 		dup := false
 		for _, x := range in.pre {
 			if x.l.coq() == l.coq() && x.w == (m == "Lock") {
@@ -853,6 +858,7 @@ func (in *lgInterp) lockOp(p token.Pos, l lgLock, m string) error {
 	for i := len(in.held) - 1; i >= 0; i-- {
 		if in.held[i].l.coq() == l.coq() && in.held[i].w == (m == "Unlock") {
 			in.held = append(in.held[:i:i], in.held[i+1:]...)
+			in.path = append(in.path[:len(in.path):len(in.path)], lgAct{l: l, w: m == "Unlock"})
 			return nil
 		}
 	}
@@ -1026,6 +1032,8 @@ func (in *lgInterp) branches(p token.Pos, alts []func() (int, error), mayskip bo
 	facts := in.facts
 	alias := in.alias
 	pre := in.pre
+	path := in.path
+	repPath := path
 	var preOut []lgHeld
 	var out []lgHeld
 	have := mayskip
@@ -1038,9 +1046,13 @@ func (in *lgInterp) branches(p token.Pos, alts []func() (int, error), mayskip bo
 		in.facts = facts
 		in.alias = alias
 		in.pre = pre
+		in.path = path
 		t, err := a()
 		if err != nil {
 			return lgNone, err
+		}
+		if t == lgNone {
+			repPath = in.path
 		}
 		if t == lgNone || t == lgBreak {
 			for _, x := range in.pre {
@@ -1080,6 +1092,7 @@ func (in *lgInterp) branches(p token.Pos, alts []func() (int, error), mayskip bo
 		}
 	}
 	in.pre = preOut
+	in.path = repPath
 	if !have {
 		in.held = entry
 		return allTerm, nil
@@ -1276,13 +1289,13 @@ func (in *lgInterp) stmt(s ast.Stmt, env *lgEnv, fr *lgFrame) (int, error) {
 		return lgNone, nil
 	case *ast.GoStmt:
 		// a new thread: starts holding nothing
-		saveH, saveS, saveB := in.held, in.stack, in.breakHeld
-		in.held, in.breakHeld = nil, nil
+		saveH, saveS, saveB, saveP := in.held, in.stack, in.breakHeld, in.path
+		in.held, in.breakHeld, in.path = nil, nil, nil
 		_, err := in.eval(st.Call, env, fr)
 		if err == nil && len(in.held) != 0 {
 			err = in.refuse(s.Pos(), "goroutine ends holding locks")
 		}
-		in.held, in.stack, in.breakHeld = saveH, saveS, saveB
+		in.held, in.stack, in.breakHeld, in.path = saveH, saveS, saveB, saveP
 		return lgNone, err
 	case *ast.IfStmt:
 		env2 := &lgEnv{vars: map[string]*lgVal{}, up: env}
